@@ -177,6 +177,22 @@ def wellformed_problems(h) -> List[str]:
     with np.errstate(invalid="ignore"):
         if e.size and np.any(e < 0):
             probs.append("negative errors2")
+    # the edge representation (numpy style) of every consecutive axis describes the same bins
+    try:
+        import warnings as _w
+
+        with _w.catch_warnings():
+            _w.simplefilter("ignore")
+            edges = h.edges
+        edges = [np.asarray(edges)] if is_1d(h) else [np.asarray(e) for e in edges]
+    except Exception:
+        edges = None  # no edge representation for gapped bins
+    if edges is not None and len(edges) == len(bins):
+        for ax, (b, e) in enumerate(zip(bins, edges)):
+            if b.ndim == 2 and b.shape[0] and b.shape[1] == 2 and np.array_equal(b[1:, 0], b[:-1, 1]):
+                want = np.concatenate([b[:1, 0], b[:, 1]])
+                if e.shape != want.shape or not np.array_equal(e, want):
+                    probs.append(f"axis {ax}: edges {e.shape} do not describe the bins {b.shape}")
     for ax, b in enumerate(bins):
         if b.ndim == 2 and b.shape[0] and b.shape[1] == 2:
             with np.errstate(invalid="ignore"):
